@@ -73,6 +73,9 @@ def install(lib):
         out.append(("len-nonneg", st1.f["worker_thread_list"].len >= 0))
         out.append(("hist-len", st1.f["time_per_work_occupancy"].len >= 0))
         out += running(st1)
+        # every live worker is listed once (behaviour appends each spawned process exactly once)
+        g = z3.Function("wl_pos!%s" % _n(), z3.IntSort(), z3.IntSort())
+        out.append(("workers-listed-once", V.forall_idx(st1.f["worker_thread_list"], lambda i, x: g(x.t) == i, "wl")))
         return out
 
     def running(st):
@@ -104,6 +107,12 @@ def install(lib):
                           ynode.lineno, ("C08",))
         for nm, cl, props in lib.invariant("Machine", st, side="prove"):
             ex.ctx.oblige("yield%d.inv.%s" % (ordinal, nm), st, [cl], "yield-inv", ynode.lineno, props)
+        # C18: whenever the worker waits, the processed counter equals the number of items it has really pushed
+        old = ex.ctx.old
+        it = ex.ctx.args["item"].t
+        ex.ctx.oblige("yield%d.processed-counter-equals-items-pushed-so-far" % ordinal, st,
+                      [st.f["stats.num_item_processed"].t - old.f["stats.num_item_processed"].t == put_count(st, it)],
+                      "yield", ynode.lineno, ("C18",))
 
     def worker_finish(ex, outcomes):
         ctx = ex.ctx
@@ -129,6 +138,16 @@ def install(lib):
             for nm, cl in tokens_consumed_clauses(st):
                 ob(nm, cl, ("C10",))
             ob("worker-slot-released", z3.BoolVal(bool(st.ghost.get("released"))), ("C08",))
+            # C17: the finished worker removes itself (and nobody else) from the list of live workers
+            lr = st.ghost.get("last_resume")
+            if lr is not None:
+                L0, L1 = lr["worker_thread_list"], st.f["worker_thread_list"]
+                me = st.active
+                ob("removes-itself-from-the-live-workers", V.forall_idx(L1, lambda i, x: x.t != me, "me-gone"), ("C17",))
+                ob("removes-nobody-else.len", L1.len >= L0.len - 1, ("C17",))
+                ob("removes-nobody-else", Forall(1, lambda i: z3.Implies(z3.And(0 <= i, i < L1.len), z3.Or(
+                    L1.at(i).t == L0.at(i).t, z3.And(L1.at(i).t == L0.at(i + 1).t, L0.at(i).t == me))), [L1.len], "others-stay"),
+                   ("C17",))
             # C15: the recorded selection is the edge the item really went to
             H0, H1 = old.f["stats.out_edge_selection"], st.f["stats.out_edge_selection"]
             oe = old.f["out_edges"].val
@@ -259,7 +278,7 @@ def install(lib):
     b.rely = brely
     b.nshards = 8
     b.loops = {0: ProcLoop(lib, "Machine", bfields, back=bback, head=bhead, props=("C03", "C08", "C10", "C15"),
-                           heaps=("thread_state", "item_to_put", "selector_kind", "edge_cls"),
+                           heaps=("thread_state", "item_to_put", "selector_kind"),
                            assume_only=lambda st: [("A-sources: the delay source and the selection policies are different objects",
                                                     z3.And(st.f["processing_delay"].oid != st.f["in_edge_selection"].oid,
                                                            st.f["processing_delay"].oid != st.f["out_edge_selection"].oid))]),
